@@ -33,6 +33,7 @@ struct Shape {
     int64_t amount = 100000000;
     std::string leaf_kind;                // p2wsh-checksig / p2tr-script: "" = the signature script; "data" = a signature-free script over two small witness items
                                           // whose hex spelling is digits only (51, 1234); "p2sh-shaped" = OP_HASH160 <20 bytes> OP_EQUAL as witness script / leaf
+    bytes raw_script; std::vector<bytes> raw_items;   // leaf_kind "raw": this script over these witness items (bottom first)
     int annex_len = 4;                    // length of the annex (first byte 0x50) when one is attached
     int tap_checks = 1;                   // p2tr-script: the leaf checks its one signature this many times (<P> [2DUP CHECKSIGVERIFY]* CHECKSIG): BIP342 budget vs whole-witness size
     int pad = 0, pad2 = 0;                // p2wsh-checksig / p2tr-script: the script starts with <pad bytes> DROP [<pad2 bytes> DROP] (scripts larger than one stack element)
@@ -125,6 +126,7 @@ inline Spend make_spend(const std::string& type, const Shape& sh, uint8_t ht = 1
     } else if (type == "p2wsh-checksig") {
         bytes ws = script_cat({pad_prefix(sh), push_raw(k1.pub), op(0xac)});
         if (sh.leaf_kind == "data") { ws = data_leaf(); finish_v0(p2wsh_spk(ws), {}, ws, [&](const std::vector<bytes>&) { auto w = data_items(); w.push_back(ws); return w; }, {}); }
+        else if (sh.leaf_kind == "raw") { ws = sh.raw_script; finish_v0(p2wsh_spk(ws), {}, ws, [&](const std::vector<bytes>&) { auto w = sh.raw_items; w.push_back(ws); return w; }, {}); }
         else if (sh.leaf_kind == "p2sh-shaped") { ws = p2sh_shaped_leaf(); finish_v0(p2wsh_spk(ws), {}, ws, [&](const std::vector<bytes>&) { return std::vector<bytes>{p2sh_shaped_preimage(), ws}; }, {}); }
         else
         finish_v0(p2wsh_spk(ws), {}, ws, [&](const std::vector<bytes>& s) { return std::vector<bytes>{s[0], ws}; }, {&k1});
@@ -154,6 +156,7 @@ inline Spend make_spend(const std::string& type, const Shape& sh, uint8_t ht = 1
         S.leaf_script.push_back(0xac);
         if (sh.leaf_kind == "data") S.leaf_script = data_leaf();
         if (sh.leaf_kind == "p2sh-shaped") S.leaf_script = p2sh_shaped_leaf();
+        if (sh.leaf_kind == "raw") S.leaf_script = sh.raw_script;
         bytes k = tapleaf_hash(0xc0, S.leaf_script);
         std::vector<bytes> path;
         for (int i = 0; i < pathlen; i++) { bytes node = sha256(bytes{'n', 'o', 'd', 'e', uint8_t(i), uint8_t(seed)}); if (i % 2) node[0] = 0x00; else node[0] = 0xff; path.push_back(node); k = tapbranch_hash(k, node); }
@@ -169,6 +172,7 @@ inline Spend make_spend(const std::string& type, const Shape& sh, uint8_t ht = 1
         S.tx.vin[sh.pos].witness = {sig, S.leaf_script, S.control};
         if (sh.leaf_kind == "data") { auto w = data_items(); w.push_back(S.leaf_script); w.push_back(S.control); S.tx.vin[sh.pos].witness = w; }
         if (sh.leaf_kind == "p2sh-shaped") S.tx.vin[sh.pos].witness = {p2sh_shaped_preimage(), S.leaf_script, S.control};
+        if (sh.leaf_kind == "raw") { auto w = sh.raw_items; w.push_back(S.leaf_script); w.push_back(S.control); S.tx.vin[sh.pos].witness = w; }
         if (annex) S.tx.vin[sh.pos].witness.push_back(ann);
     } else throw std::runtime_error("unknown spend type " + type);
     return S;
